@@ -232,7 +232,7 @@ func c11Dec(c *fw.Ctx, i int) {
 			return
 		}
 		for _, plen := range []int{0, 1, 2, 8} {
-			in := append(append([]byte{}, enc...), r.Bytes(plen)...)
+			in := fw.Exact(append(append([]byte{}, enc...), r.Bytes(plen)...))
 			pre := codecs.VP8Packet{X: 1, N: 1, S: 1, PID: 7, I: 1, L: 1, T: 1, K: 1, PictureID: 0x7ABC, TL0PICIDX: 0xEE, TID: 3, Y: 1, KEYIDX: 31}
 			vp := codecs.VP8Packet{}
 			if draw%2 == 1 {
@@ -282,6 +282,12 @@ func c11Dec(c *fw.Ctx, i int) {
 				bad = "TID/Y"
 			case d.X && d.K && vp.KEYIDX != d.KEYIDX:
 				bad = "KEYIDX"
+			// RFC 7741: TID/Y are ignored when T = 0 and KEYIDX when K = 0 even if the shared octet is present;
+			// the decoder reports such fields as zero, never the ignored bits of the octet
+			case d.X && !d.T && (vp.TID != 0 || vp.Y != 0):
+				bad = "TID/Y-reported-although-T-is-0"
+			case d.X && !d.K && vp.KEYIDX != 0:
+				bad = "KEYIDX-reported-although-K-is-0"
 			}
 			if bad != "" {
 				c.Fail("C11/decoder/field-differs/"+bad, "VP8Packet decodes field "+bad+" differently from the encoded value", fw.W("input", fw.Hex(in), "encoded", fmt.Sprintf("%+v", d), "decoded", fmt.Sprintf("%+v", vp)))
@@ -297,7 +303,7 @@ func c11Dec(c *fw.Ctx, i int) {
 		for cut := 0; cut < len(enc); cut++ {
 			var vp codecs.VP8Packet
 			var err error
-			in := append([]byte{}, enc[:cut]...)
+			in := fw.Exact(enc[:cut])
 			if pv, st := fw.Guard(func() { _, err = vp.Unmarshal(in) }); pv != nil {
 				c.Fail("C11/decoder/panic/"+fw.PanicFunc(st), fmt.Sprintf("VP8Packet.Unmarshal panicked on a truncated descriptor: %v", pv), fw.W("input", fw.Hex(in), "stack", st))
 				return
